@@ -60,7 +60,8 @@ def choose(rng, seq):
 
 
 def random_type(rng, ftf_outer, nr=None, n_duct=None, tdep=False,
-                max_rings=8, allow_bare=True, corr=None, byp=None):
+                max_rings=8, allow_bare=True, corr=None, byp=None,
+                type_kw=None):
     nr = nr if nr is not None else int(rng.integers(2, max_rings + 1))
     n_duct = n_duct if n_duct is not None else choose(rng, [1, 1, 1, 2, 2, 3])
     if corr is None:
@@ -69,7 +70,7 @@ def random_type(rng, ftf_outer, nr=None, n_duct=None, tdep=False,
             corr = choose(rng, BARE_TRIPLES)
     # bare rods are accepted only by the CTD/UCTD friction and flow split
     wire = not (corr in BARE_TRIPLES and allow_bare and rng.random() < 0.7)
-    kw = {}
+    kw = dict(type_kw or {})
     if n_duct > 1:
         if byp is None:
             byp = 0.0 if rng.random() < 0.3 else loguniform(rng, 0.01, 0.25)
@@ -148,7 +149,7 @@ def random_power(rng, P, max_cells=4, max_order=3, aligned=True):
 def single_assembly(rng, tdep=None, gap=None, lf=None, regions=None,
                     max_rings=7, length=None, vel=None, n_duct=None,
                     nr=None, corr=None, conv_approx=None, byp=None,
-                    coolant_pool=False, bc=None):
+                    coolant_pool=False, bc=None, type_kw=None):
     """One assembly at the core centre."""
     tdep = (rng.random() < 0.3) if tdep is None else tdep
     L = length if length is not None else float(choose(rng, [0.5, 1.0, 2.0]))
@@ -162,7 +163,8 @@ def single_assembly(rng, tdep=None, gap=None, lf=None, regions=None,
         pick_coolant(rng, P, tdep)
     ftf_o = 0.1175 - (0.0 if rng.random() < 0.7 else rng.uniform(0, 0.003))
     t = random_type(rng, ftf_o, nr=nr, n_duct=n_duct, tdep=tdep,
-                    max_rings=max_rings, corr=corr, byp=byp)
+                    max_rings=max_rings, corr=corr, byp=byp,
+                    type_kw=type_kw)
     lf = (rng.random() < 0.08) if lf is None else lf
     feats = {'lf': bool(lf), 'tdep': bool(tdep), 'gap': gap,
              'nr': t['num_rings'], 'n_duct': len(t['duct_ftf']) // 2,
@@ -186,6 +188,8 @@ def single_assembly(rng, tdep=None, gap=None, lf=None, regions=None,
     dT = float(rng.uniform(5, 140))
     shape = choose(rng, ['rand', 'rand', 'flat', 'hotpin', 'zero'])
     comps = choose(rng, [[1, 2, 3], [1, 2, 3], [1], [1, 3], [2, 3], [1, 2]])
+    if bc in ('outlet_temp', 'delta_temp') and shape == 'zero':
+        shape = 'flat'      # these need power to derive the flow rate
     nc = len(P['power']['zb']) - 1
     spec = {'comps': comps,
             'axial': [float(x) for x in rng.uniform(0.2, 1.5, nc)]}
@@ -219,7 +223,7 @@ def core_problem(rng, n_ring=2, n_types=None, tdep=False, gap='flow',
                  empty_frac=0.0, max_rings=5, length=None, lf_frac=0.15,
                  regions_frac=0.2, dd_frac=0.3, vel_range=(0.05, 6.0),
                  coolant_pool=False, bc_kinds=('flowrate',),
-                 own_power_mesh=0.0, shared_flow=0.0):
+                 own_power_mesh=0.0, shared_flow=0.0, conv_approx=0.0):
     """Multi-assembly core on n_ring hex rings with 1..3 assembly types."""
     L = length if length is not None else float(choose(rng, [0.5, 1.0]))
     P = gen.base_problem(length=L, asm_pitch=0.12, gap_model=gap,
@@ -275,11 +279,37 @@ def core_problem(rng, n_ring=2, n_types=None, tdep=False, gap='flow',
         filled += 1
     feats['n_asm'] = filled
     feats['n_pos'] = npos
+    feats['conv_approx'] = False
+    if conv_approx and rng.random() < conv_approx:
+        P['setup']['conv_approx'] = True
+        P['setup']['conv_approx_dz_cutoff'] = float(
+            choose(rng, [0.001, 0.01, 0.1]))
+        feats['conv_approx'] = True
     P['setup']['calc_energy_balance'] = True
     return P, feats
 
 
-def add_pin_model(rng, P, tname, kind=None):
+def own_power_meshes(rng, P, frac=0.5):
+    """Give some assemblies their own axial power mesh: same number of
+    cells and same height as the core-wide one, other interior bounds."""
+    zb = P['power']['zb']
+    L = P['length']
+    n = 0
+    if len(zb) <= 2:
+        return 0
+    for k, sp in P['power']['asm'].items():
+        if rng.random() < frac:
+            inner = np.unique(np.round(rng.uniform(0.1, 0.9, len(zb) - 2)
+                                       * L, 3))
+            if len(inner) == len(zb) - 2:
+                sp['zb'] = [0.0] + [float(x) for x in inner] + [L]
+                n += 1
+        else:
+            sp.pop('zb', None)
+    return n
+
+
+def add_pin_model(rng, P, tname, kind=None, gap=None, cap_flow=False):
     """Attach a FuelModel (metal fuel) or PinModel (user pin materials) to an
     assembly type so that pin temperatures are computed."""
     t = P['types'][tname]
@@ -307,9 +337,23 @@ def add_pin_model(rng, P, tname, kind=None):
             names.append(nm)
         t['PinModel'] = {'clad_material': 'clad_const', 'r_frac': rf,
                          'pin_material': names}
-        if rng.random() < 0.4:
-            P['materials']['gap_he'] = {'thermal_conductivity': [0.3]}
-            t['PinModel']['gap_material'] = 'gap_he'
-            t['PinModel']['gap_thickness'] = float(
-                rng.uniform(0.01, 0.05) * t['pin_diameter'])
+    # fuel-clad gap (either model): clad inner surface and fuel surface
+    # then differ
+    if rng.random() < (0.4 if gap is None else gap):
+        P['materials']['gap_he'] = {'thermal_conductivity': [0.3]}
+        m = t['FuelModel' if kind == 'fuel' else 'PinModel']
+        m['gap_material'] = 'gap_he'
+        m['gap_thickness'] = float(rng.uniform(1e-5, 6e-5))
+    # keep the mean linear pin power in a physical range (<= 30 kW/m): the
+    # pin conduction iterations are capped at 10 sweeps
+    cap = 3.0e4 * gen.n_pin(t['num_rings']) * P['length']
+    for q in P['positions']:
+        if q['type'] == tname:
+            sp = P['power']['asm'][str(gen.pos_index0(q['ring'], q['pos']))]
+            if sp['total'] > cap:
+                f = cap / sp['total']
+                sp['total'] = cap
+                if 'flowrate' in q and cap_flow:
+                    q['flowrate'] *= f
+                    q['nominal_flowrate'] *= f
     return kind
